@@ -104,7 +104,7 @@ def putback_fact(trees, cls, fn):
     """in `fn`: every block that puts tempList back at the front of queueList under the mutex is followed, after the
     lock scope is closed, by `if(doCanProcess()) notify_one()`.  True / False; anything else is not translatable."""
     from leaves.locks import class_functions
-    bodies = [b for nm, _, b in class_functions(trees, cls) if nm == fn]
+    bodies = [b for nm, _, b, _ in class_functions(trees, cls) if nm == fn]
     if not bodies:
         raise Untranslatable('%s::%s not found' % (cls, fn))
     verdicts = []
